@@ -128,6 +128,22 @@ func genC13(r *rt.Rand, tier string, idx int) *world.Scenario {
 		sc.Prologue = append([]world.Op{{K: "burst", Key: prefix + "/m", Val: "x", Limit: nk, Ms: nk}}, sc.Prologue...)
 		sc.MaxSteps = 400000
 	}
+	if idx%1500 == 611 {
+		// more than a thousand regions (the placement driver's answers come in batches; the stream's buffer
+		// holds 1000 batches, one per non-empty partition), read by a client slower than the scan
+		sc.Engine, sc.Class = "tikv", "tikv-real-regions+more-than-1024"
+		sc.Extra["tikv_regions"] = 1
+		nk := 1040 + r.Intn(80)
+		sc.Prologue = append([]world.Op{{K: "burst", Key: prefix + "/m", Val: "x", Limit: int64(nk), Ms: int64(nk)}}, sc.Prologue...)
+		sc.Parts = nil
+		for i := 0; i < nk; i++ {
+			sc.Parts = append(sc.Parts, hex.EncodeToString(simkv.EncodeKey([]byte(fmt.Sprintf("%s/m%d", prefix, i)), 0)))
+		}
+		cl.Ops = append(cl.Ops, world.Op{K: "stream", Key: "/", End: "0", Consume: "lazy"}, world.Op{K: "list", Key: "/", End: "0"}, world.Op{K: "count", Key: "/", End: "0"})
+		sc.Inactive = []string{"kv.get", "kv.get.ret", "kv.commit", "kv.commit.ret", "seq.cache", "seq.bcast", "seq.sent", "hub.recv", "client.next"}
+		sc.Stick = 0.9
+		sc.MaxSteps = 3000000
+	}
 	if idx%200 == 53 {
 		// more regions than the placement driver hands out in one answer (the client asks in batches)
 		sc.Engine, sc.Class = "tikv", "tikv-real-regions+more-than-128"
@@ -192,6 +208,14 @@ func checkC13(c *Ctx) {
 	multi := false
 	for _, e := range []string{"x"} {
 		_ = e
+	}
+	if w.Stuck {
+		// a reader that waits for ever: the stream neither delivered its terminator nor anything else
+		for _, r := range w.Recs {
+			if !r.Done && r.Client >= 0 && (r.Op.K == "stream" || r.Op.K == "streamparts") {
+				out.violate(P, "stream-never-ended", "stream-never-ended", "%s[%s,%s) never delivered a terminator: the reader is still waiting (%s)", r.Op.K, r.Op.Key, r.Op.End, w.StuckWhy)
+			}
+		}
 	}
 	for _, r := range w.Recs {
 		if !r.Done || r.Err != "" || r.Client < 0 {
